@@ -14,7 +14,7 @@ def eng(keys):
                                                no_call_log=' res=db' in case and re.search(r' opt=\S*static', case) is not None)
 
 ENGINE_TRUSTED = [
-    "text/template is modelled for literal text and {{.name}} placeholders only (missingkey=error); generated inputs never contain '{' (an error prefix quoting such input would be parsed as a template action)",
+    "text/template is modelled for literal text and {{.name}} placeholders only (missingkey=error); templates of the cases use nothing else; client inputs may contain anything, including template actions - since the fix that prepends the error text to the rendered output they never reach the template parser",
     "CBOR round trip of the exported State/Cache fields is modelled as snapshot/restore; every persisted-mode case goes through the real persister and memory store",
     "resource lookups and external functions are parameters of the model (tables in the case); lang.LanguageFromCode is a parameter filled from the codes used; about a fifth of the cases are served through the library's own resource.DbResource over a mem or fs store holding the same tables (bytecode under BIN, templates under TEMPLATE, labels under MENU as <sym>_menu, translations under their language), so resource/db.go and the store's language fallback are inside the compared behaviour",
     "how a case is served is varied by the harness without telling the model: bytecode produced by the real assembler from the instructions' source text (inside the domain of assemble_faithful), a persister WithFlush(), application and session in one store object, handler symbols with fixed content stored under STATICLOAD (their calls are then not logged and not compared), a second independent session served from the same bytecode slices between the requests, and a third serving mode (one long-lived engine that is given a persister); the ISO-639 table of the cases (part 1, part 3, part 2 bibliographic codes) is written down in the harness",
